@@ -86,7 +86,29 @@ fn run_job(ctx: &mut Context, job: &Value) -> Value {
             },
             Err(_) => "err",
         };
-        return json!({"q": text(t), "ast": expr_json(&e), "printed": text(&printed), "same": back == e, "serde": serde});
+        // the structured form (ExprReply: a token list for clients), read back token by token
+        fn flatten(parts: &serde_json::Value, out: &mut Vec<String>, ok: &mut bool) {
+            for p in parts.as_array().map(|a| a.as_slice()).unwrap_or(&[]) {
+                match p["type"].as_str() {
+                    Some("literal") => out.push(p["text"].as_str().unwrap_or("").to_string()),
+                    Some("unit") => out.push(p["name"].as_str().unwrap_or("").to_string()),
+                    Some("property") => {
+                        out.push(format!("{} of", p["property"].as_str().unwrap_or("")));
+                        flatten(&p["subject"], out, ok);
+                    }
+                    _ => *ok = false,
+                }
+            }
+        }
+        let reply = rink_core::output::ExprReply::from(&e);
+        let rv = serde_json::to_value(&reply).unwrap_or(serde_json::Value::Null);
+        let (mut toks, mut rok) = (vec![], rv["exprs"].is_array());
+        flatten(&rv["exprs"], &mut toks, &mut rok);
+        let rprinted = toks.join(" ");
+        let mut it3 = TokenIterator::new(&rprinted).peekable();
+        let rback = parse_expr(&mut it3);
+        return json!({"q": text(t), "ast": expr_json(&e), "printed": text(&printed), "same": back == e, "serde": serde,
+                      "rprinted": text(&rprinted), "rsame": rback == e, "rok": rok});
     }
     if job["lookup"].is_array() {
         // C07: Context::lookup / canonicalize of a name
